@@ -70,19 +70,20 @@ theorem consumeAtomEscape_wb (hN : K.2 < 2 ^ 62) (hsrc : ∀ x ∈ src, x ≤ 0x
     (h : BAt src K r s) :
     Wp (consumeAtomEscape n s) (fun b s1 =>
       if b = true then ∃ r1 a, BAt src K r1 s1 ∧ RxSpecB.AtomEscape K.1 K.2 r r1 a ∧ Track s s1 a
-      else BAt src K r s1 ∧ KeepN s s1) := by
+      else BAt src K r s1 ∧ KeepN s s1 ∧ ¬∃ r1 v, RxSpecB.CharacterEscape K.1 r r1 v) := by
   unfold consumeAtomEscape
   rx6_auto
   · rw [if_neg (by decide)]
-    exact ⟨‹BAt src K r _›, by rx6_keep⟩
+    exact ⟨‹BAt src K r _›, by rx6_keep, ‹¬∃ r1 v, RxSpecB.CharacterEscape K.1 r r1 v›⟩
   · rw [if_neg (by decide)]
-    exact ⟨‹BAt src K r _›, by rx6_keep⟩
-  · rename_i s1 hk1 hat1 s2 hk2 hat2 s3 hk3 hat3 hnf s4 r1 a hat4 hae htr
+    exact ⟨‹BAt src K r _›, by rx6_keep, ‹¬∃ r1 v, RxSpecB.CharacterEscape K.1 r r1 v›⟩
+  · rename_i s1 hk1 hat1 hnd s2 hk2 hat2 hnc s3 hk3 hat3 hnce hnf s4 r1 a hat4 hae htr
     rw [if_pos rfl]
     have hk : KeepN s s3 := (hk1.toN.trans hk2).trans hk3.toN
     exact ⟨r1, a, hat4, hae (hat3.nFlag'.symm.trans hnf), Track.pre hk htr⟩
   · rw [if_pos rfl]
-    exact ⟨_, _, ‹BAt src K _ _›, RxSpecB.AtomEscape.character _ _ _ ‹RxSpecB.CharacterEscape K.1 r _ _›, Track.ofKeepN (by rx6_keep)⟩
+    exact ⟨_, _, ‹BAt src K _ _›, RxSpecB.AtomEscape.character _ _ _ ‹RxSpecB.CharacterEscape K.1 r _ _›
+      ‹¬∃ r' v', DecimalEscape r r' v' ∧ v' ≤ K.2› ‹¬∃ r', RxSpecB.CharacterClassEscape r r'›, Track.ofKeepN (by rx6_keep)⟩
   · rw [if_pos rfl]
     exact ⟨_, _, ‹BAt src K _ _›, RxSpecB.AtomEscape.characterClass _ _ ‹RxSpecB.CharacterClassEscape r _›, Track.ofKeepN (by rx6_keep)⟩
   · rw [if_pos rfl]
